@@ -49,6 +49,18 @@ def cases(ctx):
         d = gen.rbytes(r, 32) if r.random() < 0.8 else r.choice([b"\x00" * 32, b"\xff" * 32, (ec.N).to_bytes(32, "big"), (ec.N - 1).to_bytes(32, "big"), (1).to_bytes(32, "big")])
         yield dict(base, mode="digest", msg=d.hex(), hash="none")
         yield {"k": "ecdh", "a": rkey(r).to_bytes(32, "big").hex(), "b": rkey(r).to_bytes(32, "big").hex(), "ca": r.random() < 0.5, "cb": r.random() < 0.5}
+        # neighbours, executed back to back on the same thread: the same message under the negated key and under another key, the
+        # same key with a message differing in its last / first byte only, then the first request again (state kept between calls
+        # and keyed on part of the arguments only would show here)
+        if i % 3 == 0 and L <= 400:
+            mb = bytes.fromhex(msg)
+            twins = [(ec.N - x, mb), (rkey(r), mb), (x, mb[:-1] + bytes([mb[-1] ^ 1]) if mb else b"\x00"), (x, (bytes([mb[0] ^ 0x80]) + mb[1:]) if mb else b"\x01"), (x, mb + b"\x00"), (x, mb)]
+            hsh = r.choice(["sha256", "sha256d"])
+            for kx, mm in twins:
+                yield {"k": "sign", "key": kx.to_bytes(32, "big").hex(), "compressed": base["compressed"], "msg": mm.hex(), "mode": "det", "hash": hsh, "reverse_k": False, "twin": True}
+            a_, b_ = rkey(r), rkey(r)
+            for aa, bb in ((a_, b_), (a_, ec.N - b_), (ec.N - a_, b_), (a_, b_)):
+                yield {"k": "ecdh", "a": "%064x" % aa, "b": "%064x" % bb, "ca": True, "cb": True}
     # ECDH against crafted peer points (not derived from a private key): x just below p (>= the group order n), tiny x (leading zero
     # bytes in the secret), combined with private keys 1 / n-1 (the secret is then the peer's own x) and ordinary keys
     if ctx.shard % 4 == 0 or ctx.tier == "thorough":
@@ -128,6 +140,8 @@ def judge(ctx, case):
     mode = case["mode"]
     m = bytes.fromhex(case["msg"])
     ctx.hit("mode_" + mode)
+    if case.get("twin"):
+        ctx.hit("neighbour_sequence")
     ctx.nontrivial()
     if x in EDGE:
         ctx.hit("edge_key")
